@@ -30,11 +30,62 @@ def _stmt(n):
     return n
 
 
+MUTATORS = {"discard", "remove", "add", "update", "clear", "pop", "append", "difference_update", "intersection_update"}
+
+
+def _live_buckets(ctx, repo) -> None:
+    """A caller that changes the collection a provider accessor handed out relies on getting the stored
+    bucket itself; the accessor must then not return a copy (aliasing contract between two modules)."""
+    gmod = repo.module(GEN)
+    accessors = {}
+    for qn, fn in gmod.functions.items():
+        cls_, _, name = qn.rpartition(".")
+        if cls_ and not name.startswith("_") and any(isinstance(n, ast.Attribute) and norm(n) == "self._generators" for n in own_nodes(fn)):
+            rets = [r for r in own_nodes(fn) if isinstance(r, ast.Return) and r.value is not None]
+            if rets:
+                accessors[name] = (fn, rets)
+    users = 0
+    for mod_, qn, fn in repo.all_functions():
+        bound = {}
+        for n in own_nodes(fn):
+            if isinstance(n, ast.Assign) and len(n.targets) == 1 and isinstance(n.targets[0], ast.Name) and isinstance(n.value, ast.Call) and last_attr(n.value) in accessors and "provider" in norm(n.value.func):
+                bound[n.targets[0].id] = last_attr(n.value)
+        for n in own_nodes(fn):
+            if isinstance(n, ast.Call) and isinstance(n.func, ast.Attribute) and n.func.attr in MUTATORS and isinstance(n.func.value, ast.Name) and n.func.value.id in bound:
+                var = n.func.value.id
+                # a local that is returned, stored or passed on is the caller's own working copy: changing it is meaningful
+                # without aliasing; a local that only receives the change can only matter as an alias of the provider's state
+                escapes = False
+                for u in own_nodes(fn):
+                    if isinstance(u, ast.Name) and u.id == var and isinstance(u.ctx, ast.Load):
+                        par = parent(u)
+                        if isinstance(par, ast.Attribute) and par.value is u:
+                            continue  # receiver of a method / attribute read
+                        if isinstance(par, ast.Call) and norm(par.func) in ("len", "bool") or isinstance(par, (ast.Compare, ast.UnaryOp, ast.BoolOp, ast.If)):
+                            continue
+                        escapes = True
+                if escapes:
+                    continue
+                acc = bound[var]
+                afn, rets = accessors[acc]
+                users += 1
+                ctx.analysed(fn)
+                ctx.analysed(afn)
+                for r in rets:
+                    v = r.value
+                    stored = (isinstance(v, ast.Subscript) and norm(v.value) == "self._generators") or (isinstance(v, ast.Call) and norm(v.func) in ("self._generators.get", "self._generators.setdefault")) or norm(v) == "self._generators"
+                    ctx.check("C26.live-bucket", r, stored, f"{mod_.name}:{qn} changes the collection returned by {acc}() in place (`{norm(n)[:60]}`) and relies on it being the provider's own bucket, but {acc} returns `{norm(v)[:70]}`, a copy: the change is lost - a generator whose return type was updated stays filed under its old type and is offered for requests it cannot satisfy", what=f"{acc}() hands out the stored bucket that {qn} updates", stmt=f"[{acc}] {qn.split('.')[-1]}")
+    if users == 0:
+        ctx.ok("C26.live-bucket", gmod.tree, "no caller mutates a collection handed out by the provider")
+
+
 def check(ctx) -> None:
     repo = ctx.repo
     ctx.rule("C26.compatible", "every (request T, generated G) pair the rank-based provider offers has G maybe-subtype of T; likewise the random provider", floor=2)
     ctx.rule("C26.providers-agree", "both providers offer the same generators for every request of the universe", floor=1)
     ctx.rule("C26.provider-shape", "the rank-based provider decides by `subtype_distance(requested, generated) is not None`, the random one by `is_maybe_subtype(generated, requested)` (argument order); both take everything for Any", floor=4)
+    ctx.rule("C26.live-bucket", "aliasing contract: where a caller updates in place the collection a GeneratorProvider accessor returned, the accessor returns the stored bucket itself, not a copy", floor=1)
+    _live_buckets(ctx, repo)
     ctx.rule("C26.type-cache", "every lru_cache'd method of TypeSystem is cleared by _clear_query_caches, and every writer of graph edges reaches it", floor=7)
     ctx.rule("C26.gen-cache", "clear_generator_cache clears every memoised method of GeneratorProvider and its subclasses; a generator that changes its return type is followed by clear_generator_cache and get_all_generatable_types.cache_clear()", floor=5)
 
